@@ -64,7 +64,7 @@ def judge(ctx):
         compare(ctx, D.exps_counter(real), want, "iterate")
 
 
-CFG = G.cfg(blocks=("cross", "cross", "multi"))
+CFG = G.cfg(blocks=("cross", "cross", "multi", "repeat", "merge", "nest"))
 P = D.DesignProperty(
     "C02", judge,
     rule=("case = generated design spec in the reference domain (accepted by the constructor, documentation unambiguous); the "
